@@ -265,7 +265,7 @@ pub fn run(args: &Args) -> i32 {
             break;
         }
         let mut rng = Rng::new(args.case_seed(c));
-        case(&mut rng, &pool, &mut rep, c);
+        guard_case(&mut rep, c, |rep| case(&mut rng, &pool, rep, c));
     }
     rep.finish();
     0
